@@ -363,6 +363,85 @@ fn field_like_namespace_family(acc: &mut Stats) {
     }
 }
 
+/// projects of many files: main imports N modules (in the project root or a sub-folder). The first, the middle and
+/// the last module define `rate` and `price` - the names main defines too -, the others only a blob type (which
+/// keeps the chunk below Lua's 200 locals, known finding F-06d). What is printed is known by construction.
+fn many_files_family(acc: &mut Stats, thorough: bool) {
+    let counts: &[usize] = if thorough { &[3, 4, 5, 8, 9, 16, 17, 32, 33, 64, 65, 100, 128, 129, 200, 255, 256, 257, 258, 300, 513] } else { &[3, 9, 17, 33, 65, 129, 256, 257, 300] };
+    for &n in counts {
+        for in_sub in [false, true] {
+            for reversed_imports in [false, true] {
+                let name = |i: usize| format!("shop{:03}", i);
+                let value_modules = [1usize, n / 2 + 1, n];
+                let mut files = Files::new();
+                for i in 1..=n {
+                    let path = if in_sub { format!("/p/sub/{}.sy", name(i)) } else { format!("/p/{}.sy", name(i)) };
+                    let text = if value_modules.contains(&i) {
+                        format!("rate :: {}\nprice :: fn amount: int -> int do\n    ret amount * rate\nend\n", i + 1)
+                    } else {
+                        format!("Item{} :: blob {{\n    id: int,\n}}\n", i)
+                    };
+                    files.insert(path, text);
+                }
+                let mut main = String::from(PRINT);
+                let order: Vec<usize> = if reversed_imports { (1..=n).rev().collect() } else { (1..=n).collect() };
+                for i in order {
+                    main.push_str(&if in_sub { format!("use sub/{}\n", name(i)) } else { format!("use {}\n", name(i)) });
+                }
+                main.push_str("rate :: 10\nprice :: fn amount: int -> int do\n    ret amount * rate\nend\nstart :: fn do\n    print(price(1))\n");
+                let mut want = vec!["10".to_string()];
+                let mut seen = Vec::new();
+                for v in value_modules {
+                    if seen.contains(&v) {
+                        continue;
+                    }
+                    seen.push(v);
+                    main.push_str(&format!("    print({}.price(1))\n    print({}.rate)\n", name(v), name(v)));
+                    want.push(format!("{}", v + 1));
+                    want.push(format!("{}", v + 1));
+                }
+                for t in [2usize, n - 1] {
+                    if !value_modules.contains(&t) && t >= 1 && t <= n {
+                        main.push_str(&format!("    it{} :: {}.Item{} {{ id: {} }}\n    print(it{}.id)\n", t, name(t), t, t * 3, t));
+                        want.push(format!("{}", t * 3));
+                    }
+                }
+                main.push_str("    print(rate)\nend\n");
+                want.push("10".to_string());
+                files.insert(MAIN.to_string(), main);
+                acc.evaluations += 1;
+                acc.states += 1;
+                acc.nontrivial(fnv(format!("many files {} {} {}", n, in_sub, reversed_imports).as_bytes()));
+                let desc = format!("main imports {} modules ({}; imports written {})", n, if in_sub { "in a sub-folder" } else { "next to it" }, if reversed_imports { "last module first" } else { "first module first" });
+                let mut fm = serde_json::Map::new();
+                for (k, v) in &files {
+                    fm.insert(k.clone(), json!(v));
+                }
+                let (out, log) = run_files(&files);
+                match &out {
+                    Outcome::Ok(lua) => {
+                        let r = run_lua(lua, 5_000_000);
+                        if r.end != LuaEnd::Done || r.out != want {
+                            acc.outcome("behaviour-differs-from-single-file");
+                            acc.fail(Failure { sig: "behaviour-differs-from-single-file".into(), preds: vec!["many-files".into()], detail: format!("{}\nexpected {:?}\nproject prints {:?} {:?}", desc, want, r.out, r.end), case: json!({"engine": "c12", "files": fm, "expected": want, "expect": "same"}), size: 100_000 + n });
+                        } else if log.len() != files.len() {
+                            acc.outcome("file-not-read-exactly-once");
+                            acc.fail(Failure { sig: "file-not-read-exactly-once".into(), preds: vec!["many-files".into()], detail: format!("{}\n{} reads for {} files", desc, log.len(), files.len()), case: json!({"engine": "c12", "files": fm, "expect": "read-once"}), size: 100_000 + n });
+                        } else {
+                            acc.outcome("many-files:names-stay-with-their-file");
+                            acc.traces_validated += 1;
+                        }
+                    }
+                    other => {
+                        acc.outcome("valid-project-rejected");
+                        acc.fail(Failure { sig: "valid-project-rejected".into(), preds: vec!["many-files".into()], detail: format!("{}\n{}\n{}", desc, other.short(), if let Outcome::Err { errs, .. } = other { errs.iter().take(3).map(|e| e.dbg.clone()).collect::<Vec<_>>().join("\n") } else { String::new() }), case: json!({"engine": "c12", "files": fm, "expected": want, "expect": "same"}), size: 100_000 + n });
+                    }
+                }
+            }
+        }
+    }
+}
+
 pub fn run(run: &mut Run) {
     let thorough = run.thorough();
     let item_sets: Vec<Vec<&str>> = if thorough {
@@ -544,9 +623,10 @@ pub fn run(run: &mut Run) {
     let mut accs = accs;
     let mut fam = Stats::new();
     field_like_namespace_family(&mut fam);
+    many_files_family(&mut fam, thorough);
     accs.push(fam);
     run.stats = Stats::merge_all(accs);
-    run.rule = "item sets of 4-6 globals (constant, mutable, function using the constant, blob, enum, function mutating the mutable, function reading the constant only in an elif condition, function reading the variable only in a loop condition and a case-else arm); every non-main module also defines a private `start`; every assignment of the items to main + 1..2 further files x every placement of those files (root, sub-folder, sub/exports.sy) x import style per ordered file pair (use + qualified name, use as alias, from use, from use as; parenthesised lists when several names; /-rooted paths from sub-folder files; cyclic imports arise when items reference main or each other); each project also compiled with the main file spelled `main.sy`, `./main.sy`, `p/main.sy`, `../p/main.sy`, `./p/../p/main.sy` from matching working directories (same behaviour, every file read once under its normalised path); per project three families of negative twins (each import dropped, a missing name/module, a colliding alias); plus 144 projects in which a blob field is called like the namespace a module is imported under and sits in the middle of an access path whose root is a value (module at root / sub-folder / exports.sy x plain or aliased import x blob declared in main or a third file x module globals named like the blob's fields or not x six path shapes: read, call result root, assignment and +=, three levels, tuple-index root, inside a function), each compared with its single-file program; non-trivial = every project; distinct by file map".into();
+    run.rule = "item sets of 4-6 globals (constant, mutable, function using the constant, blob, enum, function mutating the mutable, function reading the constant only in an elif condition, function reading the variable only in a loop condition and a case-else arm); every non-main module also defines a private `start`; every assignment of the items to main + 1..2 further files x every placement of those files (root, sub-folder, sub/exports.sy) x import style per ordered file pair (use + qualified name, use as alias, from use, from use as; parenthesised lists when several names; /-rooted paths from sub-folder files; cyclic imports arise when items reference main or each other); each project also compiled with the main file spelled `main.sy`, `./main.sy`, `p/main.sy`, `../p/main.sy`, `./p/../p/main.sy` from matching working directories (same behaviour, every file read once under its normalised path); per project three families of negative twins (each import dropped, a missing name/module, a colliding alias); plus 144 projects in which a blob field is called like the namespace a module is imported under and sits in the middle of an access path whose root is a value (module at root / sub-folder / exports.sy x plain or aliased import x blob declared in main or a third file x module globals named like the blob's fields or not x six path shapes: read, call result root, assignment and +=, three levels, tuple-index root, inside a function), each compared with its single-file program; plus projects whose main imports 3 .. 300 (thorough: 513) modules, next to it or in a sub-folder, imports written in either order, where the first, middle and last module define the names main defines as well and the others a type each (expected output by construction); non-trivial = every project; distinct by file map".into();
     run.bounds = json!({"item_sets": item_sets, "projects": cases.len(), "style_vectors": if thorough {16} else {4}});
     run.assumptions = vec![
         "the reference behaviour is that of the single-file program (compiled and run the same way), which C01 ties to the source semantics".into(),
